@@ -49,11 +49,19 @@ func c12Run(r *Run) {
 	if tvm == nil || vm == nil {
 		return
 	}
-	fBase := r.lookupField(tvm, "Base")
+	tst := tvm.Underlying().(*types.Struct)
+	// the base VM: the field of TempVM whose type is *VM (named, or embedded so that the base VM's
+	// methods are promoted)
+	var fBase *types.Var
+	for i := 0; i < tst.NumFields(); i++ {
+		if pt, ok := tst.Field(i).Type().(*types.Pointer); ok && namedOf(pt.Elem()) == vm {
+			fBase = tst.Field(i)
+		}
+	}
 	if fBase == nil {
+		r.fail("anchor not found: TempVM has no field of type *VM (the base VM)")
 		return
 	}
-	tst := tvm.Underlying().(*types.Struct)
 	ownMaps := map[*types.Var]bool{}
 	var fParser *types.Var
 	for i := 0; i < tst.NumFields(); i++ {
@@ -93,6 +101,20 @@ func c12Run(r *Run) {
 			if ok && fieldOf(se.X) == fBase {
 				out[se.Sel.Name] = c
 			}
+			// vm.M(…) where M is promoted from the embedded base VM
+			if ok && fBase.Embedded() {
+				if sel, isSel := info.Selections[se]; isSel && sel.Kind() == types.MethodVal && len(sel.Index()) > 1 {
+					if pt, isPtr := info.TypeOf(se.X).(*types.Pointer); isPtr && namedOf(pt.Elem()) == tvm {
+						if m, isFn := sel.Obj().(*types.Func); isFn {
+							if rs := m.Type().(*types.Signature).Recv(); rs != nil {
+								if rpt, ok := rs.Type().(*types.Pointer); ok && namedOf(rpt.Elem()) == vm {
+									out[se.Sel.Name] = c
+								}
+							}
+						}
+					}
+				}
+			}
 			// a method value of the base VM handed to a helper (lookup(vm.Base.GetClass, …)) is a call
 			// the helper makes on this method's behalf
 			for _, a := range c.Args {
@@ -100,6 +122,21 @@ func c12Run(r *Run) {
 					if _, isFunc := info.TypeOf(ase).Underlying().(*types.Signature); isFunc {
 						if _, seen := out[ase.Sel.Name]; !seen {
 							out[ase.Sel.Name] = c
+						}
+					}
+				}
+				// the base VM itself handed to a lookup helper as one of the layers to ask, together with a
+				// method expression naming the question (firstDefined(name, layer.GetClass, vm.Base, vm.local()))
+				if fieldOf(a) == fBase {
+					for _, b := range c.Args {
+						if bse, ok := ast.Unparen(b).(*ast.SelectorExpr); ok {
+							if _, isFunc := info.TypeOf(bse).Underlying().(*types.Signature); isFunc {
+								if _, isType := info.Types[bse.X]; isType && info.Types[bse.X].IsType() {
+									if _, seen := out[bse.Sel.Name]; !seen {
+										out[bse.Sel.Name] = c
+									}
+								}
+							}
 						}
 					}
 				}
@@ -541,6 +578,44 @@ func c12Run(r *Run) {
 		}
 	}
 
+	// with the base VM embedded, every method of *VM that TempVM does not declare itself is reachable on
+	// a TempVM by promotion: an implicit delegation, judged like an explicit forwarder
+	if fBase.Embedded() {
+		vmIface := map[string]bool{}
+		if dp := r.pkg("data"); dp != nil {
+			if tn, ok := dp.Types.Scope().Lookup("VM").(*types.TypeName); ok {
+				if it, ok := tn.Type().Underlying().(*types.Interface); ok {
+					for i := 0; i < it.NumMethods(); i++ {
+						vmIface[it.Method(i).Name()] = true
+					}
+				}
+			}
+		}
+		ms := types.NewMethodSet(types.NewPointer(tvm))
+		var promoted []string
+		for i := 0; i < ms.Len(); i++ {
+			sel := ms.At(i)
+			if len(sel.Index()) > 1 && methods[sel.Obj().Name()] == nil {
+				// only what users of a TempVM can call: it is handed around as a data.VM
+				if !vmIface[sel.Obj().Name()] {
+					continue
+				}
+				if fn := vmMethods[sel.Obj().Name()]; fn != nil {
+					promoted = append(promoted, sel.Obj().Name())
+				}
+			}
+		}
+		sort.Strings(promoted)
+		for _, m := range promoted {
+			key := fmt.Sprintf("runtime.(TempVM).%s#delegates:%s", m, m)
+			if reaches[vmMethods[m]] {
+				r.bad(key, tvm.Obj().Pos(), fmt.Sprintf("TempVM.%s is the base VM's method (promoted from the embedded *VM), from which a method that stores a class/interface/function definition into the base VM is reachable: definitions made or resolved for this request land in the base VM and every later request sees them", m))
+			} else {
+				r.ok(key, tvm.Obj().Pos(), fmt.Sprintf("the promoted Base.%s cannot reach the base VM's Add*", m))
+			}
+		}
+	}
+
 	// ---- PARSER ----
 	r.curRule = "C12-PARSER"
 	if fParser == nil {
@@ -621,6 +696,12 @@ func c12Run(r *Run) {
 	r.curRule = "C12-READ"
 	for _, name := range []string{"GetClass", "GetInterface", "GetFunc", "GetOrLoadClass", "GetOrLoadInterface", "LoadPkg", "GetConstant"} {
 		fd := methods[name]
+		if fd == nil && fBase.Embedded() {
+			if obj, _, _ := types.LookupFieldOrMethod(types.NewPointer(tvm), true, pkg.Types, name); obj != nil {
+				r.ok("runtime.(TempVM)."+name+"#consults-base", tvm.Obj().Pos(), "the lookup is the base VM's own method, promoted from the embedded *VM")
+				continue
+			}
+		}
 		if fd == nil {
 			r.fail("anchor not found: (*TempVM).%s", name)
 			continue
@@ -653,7 +734,27 @@ func c12Run(r *Run) {
 					return true
 				}
 				if p != pkg || recvTypeName(fd) != "TempVM" {
-					if !(p == pkg && buildsTempVM(pinfo, fd, tvm)) {
+					// a view type of the same package that wraps the TempVM (requestLayer{vm *TempVM}) reads the
+					// tables on the TempVM's behalf
+					isView := false
+					if p == pkg && fd.Recv != nil && len(fd.Recv.List) == 1 {
+						rt := pinfo.TypeOf(fd.Recv.List[0].Type)
+						if pt, ok := rt.(*types.Pointer); ok {
+							rt = pt.Elem()
+						}
+						if vst, ok := rt.Underlying().(*types.Struct); ok {
+							for i := 0; i < vst.NumFields(); i++ {
+								ft := vst.Field(i).Type()
+								if pt, ok := ft.(*types.Pointer); ok {
+									ft = pt.Elem()
+								}
+								if namedOf(ft) == tvm {
+									isView = true
+								}
+							}
+						}
+					}
+					if !(p == pkg && (isView || buildsTempVM(pinfo, fd, tvm))) {
 						escaped = true
 						r.bad(funcKey(p, fd)+"#uses:"+v.Name(), se.Pos(), "the TempVM's private table "+v.Name()+" is accessed outside TempVM's methods")
 					}
